@@ -57,9 +57,81 @@ def fire_timers():
                 ent[1].set(False)
 
 
-def _choice(seq):
-    k = CUR.choices.pop(0) if CUR.choices else 0
-    return seq[k % len(seq)]
+def _draw():
+    return CUR.choices.pop(0) if CUR.choices else 0
+
+
+class FakeRandom:
+    """Stands in for the `random` module inside qs.jobs.  Every draw - whatever function the code uses to pick one of n
+    things - is answered by the next pending `Choice k` of the history (0 when none is pending), reduced to the range asked
+    for: choice(seq) = seq[k % n], randrange(n) = k % n, ...  Anything else falls through to a seeded random.Random."""
+
+    def __init__(self):
+        import random as _r
+        self._real = _r.Random(0)
+
+    def choice(self, seq):
+        k = _draw()
+        return seq[k % len(seq)]
+
+    def randrange(self, start, stop=None, step=1):
+        r = range(start) if stop is None else range(start, stop, step)
+        return r[_draw() % len(r)]
+
+    def randint(self, a, b):
+        return self.randrange(a, b + 1)
+
+    def choices(self, population, weights=None, cum_weights=None, k=1):
+        return [self.choice(population) for _ in range(k)]
+
+    def sample(self, population, k, counts=None):
+        pop = list(population)
+        n = _draw() % max(1, len(pop))
+        return (pop[n:] + pop[:n])[:k]
+
+    def shuffle(self, x):
+        if len(x):
+            n = _draw() % len(x)
+            x[:] = x[n:] + x[:n]
+
+    def random(self):
+        return (_draw() % 1000) / 1000.0
+
+    def __getattr__(self, name):
+        return getattr(self._real, name)
+
+
+def as_job(x):
+    """the job object inside a container entry (the object itself, or a tuple/list that carries it)"""
+    if hasattr(x, "serial") and hasattr(x, "jobid"):
+        return x
+    if isinstance(x, (tuple, list)):
+        for y in x:
+            if hasattr(y, "serial") and hasattr(y, "jobid"):
+                return y
+    return None
+
+
+def running_entries(plugin):
+    """[(jobid, job object or None)] = what a connection's running_jobs holds, whatever container the code uses for it
+    (dict id -> job, dict/set/list of ids, collection of job objects); None = not readable at all.  The property does not
+    mention this internal: the monitors fall back on their own book-keeping of deliveries when the objects are not there."""
+    rj = getattr(plugin, "running_jobs", None)
+    if rj is None:
+        return None
+    try:
+        res = []
+        if isinstance(rj, dict):
+            for k, v in list(rj.items()):
+                j = as_job(v) or as_job(k)
+                res.append((j.jobid if j is not None else k, j))
+        else:
+            for x in list(rj):
+                j = as_job(x)
+                res.append((j.jobid if j is not None else x, j))
+        return res
+    except Exception:
+        return None
 
 
 class AR(gevent.event.AsyncResult):
@@ -83,6 +155,9 @@ class VEvent(gevent.event.Event):
     without timeout and every other method are gevent's own."""
 
     def wait(self, timeout=None):
+        st = getattr(getcurrent(), "vt_state", None)
+        if st is not None:
+            st["wait_ev"] = self         # observation only: which finish event this connection is blocked on
         if timeout is None or self.is_set():
             return super().wait()
         ar = gevent.event.AsyncResult()
@@ -103,7 +178,7 @@ class VEvent(gevent.event.Event):
                 CUR.timers.remove(ent)
 
 
-jobs.random = types.SimpleNamespace(choice=_choice)
+jobs.random = FakeRandom()
 jobs.time = types.SimpleNamespace(time=lambda: CUR.now)
 jobs.event = types.SimpleNamespace(Event=VEvent, AsyncResult=AR)
 
@@ -210,6 +285,9 @@ class Sim:
         self.at = 0
         self.done_before_loop = set()
         self.in_loop = False
+        self.bb = {}            # BLACK-BOX book-keeping, from RPC return values only: serial -> {"id","done","fin","holder","at"}
+        self.bb_ids = []        # every job id an add request returned
+        self.unreadable = set() # white-box fields that could not be read on this code (the tie drops them, obligation broken)
         CUR.now = 0
         CUR.choices = []
         CUR.timers = []
@@ -237,13 +315,18 @@ class Sim:
                             r = plugin.rpc_qpull(list(cmd[1]))
                             st["sim"].log.append(["deliver", c, list(cmd[1]), rec(r)])
                         else:
-                            r = plugin.rpc_qwait([cmd[1]])
-                            st["sim"].log.append(["released", c, rec(r[0])])
+                            r = plugin.rpc_qwait(list(cmd[1]))
+                            recs = [rec(x) for x in r]
+                            st["sim"].wait_returned(st, recs)
+                            for x in recs:
+                                st["sim"].log.append(["released", c, x])
                     except Exception as e:   # rpcserver: error response, the connection lives on
-                        if cmd[0] == "wait" and st.get("wait_serial") is not None:
-                            # the id named a job when the wait started: the client must get that job, finished
-                            st["sim"].v("wait", "connection %d waited for job serial %s and got the error response %s instead of the finished job" % (
-                                c, st["wait_serial"], type(e).__name__))
+                        if cmd[0] == "wait" and st.get("wait_all") is not None:
+                            # every id named a job when the wait started: the client must get those jobs, finished
+                            st["sim"].v("wait", "connection %d waited for the jobs with serials %s and got the error response %s(%s) instead of the finished jobs" % (
+                                c, st["wait_all"], type(e).__name__, e))
+                        elif not (cmd[0] == "wait" and isinstance(e, KeyError)):
+                            st["sim"].v("rpc_error", "%s request of connection %d failed with %s: %s" % (cmd[0], c, type(e).__name__, e))
                         st["sim"].log.append(["keyerr"])
             finally:
                 st["state"] = "dead"
@@ -264,50 +347,199 @@ class Sim:
 
     # ------------------------------------------------------------ snapshot of the real objects
     def track(self):
-        for j in self.wq.id2job.values():
-            self.tracked.setdefault(j.serial, j)
-        for q in self.wq.channel2q.values():
-            for j in q:
+        try:
+            for j in list(self.wq.id2job.values()):
                 self.tracked.setdefault(j.serial, j)
+        except Exception:
+            self.unreadable.add("id2job")
+        try:
+            for q in list(self.wq.channel2q.values()):
+                for x in q:
+                    j = as_job(x)
+                    if j is not None:
+                        self.tracked.setdefault(j.serial, j)
+        except Exception:
+            self.unreadable.add("channel2q")
+
+    def queues(self):
+        """channel -> job objects of its queue (heap order), whatever the entries are wrapped in"""
+        return {k: [j for j in (as_job(x) for x in q) if j is not None] for k, q in self.wq.channel2q.items()}
+
+    def held_objs(self, st):
+        """job objects connection st holds according to ITS running_jobs; None when that internal does not carry objects"""
+        ent = running_entries(st["plugin"])
+        if ent is None or any(j is None for _, j in ent):
+            return None
+        return [j for _, j in ent]
+
+    def waiting_on(self, st):
+        """serial of the job whose finish event connection st is blocked on (None = unknown)"""
+        ev = st.get("wait_ev")
+        for s, j in self.tracked.items():
+            if getattr(j, "finish_event", None) is ev:
+                return s
+        return None
 
     def snap(self):
+        """canonical snapshot of the real objects for the tie.  Every field is read on its own: a field whose internal
+        representation cannot be read on this code is left out (self.unreadable; the tie on it is dropped and reported
+        as broken) - the monitors keep running."""
         wq = self.wq
         self.track()
-        conns = []
-        for c in sorted(self.conns):
-            st = self.conns[c]
-            run = [[jid_s(k), j.serial] for k, j in st["plugin"].running_jobs.items()]
-            if st["state"] == "dead":
-                conns.append([c, "dead", None, None, []])
-            elif st["state"] == "idle":
-                if run:
-                    conns.append([c, "idle", None, None, run])
-            elif st["cmd"][0] == "pull":
-                ev = st["ev"]
-                mb = ev.value.serial if ev is not None and ev.ready() else None
-                conns.append([c, "pull", [chan_n(x) for x in st["cmd"][1]], mb, run])
-            else:
-                conns.append([c, "wait", None, st["wait_serial"], run])
-        return {
-            "count": wq.count,
-            "now": CUR.now,
-            "jobs": [rec(self.tracked[s]._json()) for s in sorted(self.tracked)],
-            "ids": sorted([jid_s(k), j.serial] for k, j in wq.id2job.items()),
-            "queues": [[chan_n(k), sorted([j.priority, j.serial] for j in q)] for k, q in sorted(wq.channel2q.items())],
-            "waiters": [[w[1].vt_conn["id"], [chan_n(x) for x in w[0]]] for w in wq._waiters],
-            "conns": conns,
-            "tq": sorted([d, j.priority, j.serial] for d, j in wq.timeoutq),
-            "cnt": [[chan_n(k), [v["error"], v["timeout"], v["killed"], v["success"]]] for k, v in sorted(wq._channel2count.items())],
-            "nchoices": len(CUR.choices),
+        res = {"now": CUR.now, "nchoices": len(CUR.choices)}
+
+        def conns_f():
+            conns = []
+            for c in sorted(self.conns):
+                st = self.conns[c]
+                ent = running_entries(st["plugin"])
+                if ent is None or any(j is None for _, j in ent) or not isinstance(st["plugin"].running_jobs, dict):
+                    self.unreadable.add("running_jobs")
+                    run = None
+                else:
+                    run = [[jid_s(k), j.serial] for k, j in ent]
+                if st["state"] == "dead":
+                    conns.append([c, "dead", None, None, []])
+                elif st["state"] == "idle":
+                    if run or run is None:
+                        conns.append([c, "idle", None, None, run])
+                elif st["cmd"][0] == "pull":
+                    ev = st["ev"]
+                    mb = ev.value.serial if ev is not None and ev.ready() else None
+                    conns.append([c, "pull", [chan_n(x) for x in st["cmd"][1]], mb, run])
+                else:
+                    conns.append([c, "wait", st.get("wait_all"), self.waiting_on(st), run])
+            return conns
+
+        fields = {
+            "count": lambda: wq.count,
+            "jobs": lambda: [rec(self.tracked[s]._json()) for s in sorted(self.tracked)],
+            "ids": lambda: sorted([jid_s(k), j.serial] for k, j in wq.id2job.items()),
+            "queues": lambda: [[chan_n(k), sorted([j.priority, j.serial] for j in q)] for k, q in sorted(self.queues().items())],
+            "waiters": lambda: [[w[1].vt_conn["id"], [chan_n(x) for x in w[0]]] for w in wq._waiters],
+            "conns": conns_f,
+            "tq": lambda: sorted([d, j.priority, j.serial] for d, j in wq.timeoutq),
+            "cnt": lambda: [[chan_n(k), [v["error"], v["timeout"], v["killed"], v["success"]]] for k, v in sorted(wq._channel2count.items())],
         }
+        for f, fn in fields.items():
+            try:
+                res[f] = fn()
+            except Exception:
+                self.unreadable.add(f)
+        return res
 
     # ------------------------------------------------------------ monitors (property oracles on the real objects)
     def v(self, mon, msg):
         self.viol.append({"mon": mon, "at": self.at, "msg": msg})
 
+    # ---- BLACK-BOX monitors: RPC return values only (rpc_qadd / rpc_qinfo / rpc_qpull / rpc_qwait records, `died`)
+    def bb_entry(self, r):
+        e = self.bb.get(r[0])
+        if e is None:
+            e = self.bb[r[0]] = {"id": r[1], "done": False, "fin": None, "holder": None, "at": None}
+        return e
+
+    def bb_see(self, r, how):
+        """a job record seen in an RPC answer: 'a job's outcome is final'"""
+        e = self.bb_entry(r)
+        fin = (r[6], r[7])
+        if r[5]:
+            if e["done"] and e["fin"] != fin:
+                self.v("final", "job %s (serial %s) was reported finished with (error code,result)=%r and %s now reports %r" % (r[1], r[0], e["fin"], how, fin))
+            if not e["done"]:
+                e["done"], e["fin"], e["holder"] = True, fin, None
+        elif e["done"]:
+            self.v("final", "job %s (serial %s) was reported finished and %s now reports it unfinished" % (r[1], r[0], how))
+        return e
+
+    def bb_probe(self):
+        """rpc_qinfo of every id an add ever returned (a read-only request).  Returns {id text: record}."""
+        res = {}
+        p = self.conn(0)["plugin"]
+        for i in self.bb_ids:
+            try:
+                d = p.rpc_qinfo(i)
+            except Exception as e:
+                self.v("rpc_error", "rpc_qinfo(%r) failed with %s: %s" % (i, type(e).__name__, e))
+                continue
+            if d is not None:
+                r = rec(d)
+                self.bb_see(r, "rpc_qinfo")
+                res[jid_s(i)] = r
+        return res
+
+    def bb_out(self, out):
+        for o in out:
+            if o[0] == "deliver":
+                r = o[3]
+                e = self.bb_entry(r)
+                h = e["holder"]
+                if h is not None and h in self.conns and self.conns[h]["state"] != "dead" and not r[5]:
+                    # "handed to exactly one worker ... again only if its worker's connection drops before finishing it"
+                    self.v("bb_handout", "rpc_qpull of connection %d returned job %s (serial %s) although connection %d received it at op %s, has not "
+                           "disconnected, and the job is not finished" % (o[1], r[1], r[0], h, e["at"]))
+                self.bb_see(r, "rpc_qpull")
+                if not r[5]:
+                    e["holder"], e["at"] = o[1], self.at
+            elif o[0] == "released":
+                self.bb_see(o[2], "rpc_qwait")
+            elif o[0] == "info" and o[1] is not None:
+                self.bb_see(o[1], "rpc_qinfo")
+            elif o[0] == "died":
+                for e in self.bb.values():
+                    if e["holder"] == o[1]:
+                        e["holder"] = None
+
+    def wait_returned(self, st, recs):
+        """rpc_qwait of connection st returned: it must carry the jobs the ids named WHEN THE REQUEST ARRIVED, all finished"""
+        want = st.get("wait_all")
+        got = [r[0] for r in recs]
+        if want is not None and got != want:
+            self.v("wait", "connection %d asked to wait for %r = the jobs with serials %r and received the records of serials %r" % (
+                st["id"], [jid_s(x) for x in st["cmd"][1]], want, got))
+
+    def is_done_bb(self, ser):
+        j = self.tracked.get(ser)
+        e = self.bb.get(ser)
+        return bool((j is not None and j.done) or (e is not None and e["done"]))
+
+    def drain(self):
+        """End of a history, every connection has disconnected: a fresh worker pulls all channels until it blocks.  Every job
+        that was accepted and is not finished must come out exactly once (C16: neither lost nor duplicated; the order and the
+        finished-ness of what comes out is checked by the pull monitors of C17)."""
+        known = self.bb_probe()
+        expect = {}
+        for i, r in known.items():
+            if not r[5] and not self.is_done_bb(r[0]):
+                expect[r[0]] = r[1]
+        got = []
+        c = 90
+        while c in self.conns:
+            c += 1
+        for _ in range(len(self.bb) + len(self.tracked) + 3):
+            out = self.do(["P", str(c), "-"])
+            self.monitor_out(out)
+            d = [o for o in out if o[0] == "deliver"]
+            if not d:
+                break
+            got.extend(o[3][0] for o in d)
+        for ser, i in sorted(expect.items()):
+            if ser not in got:
+                self.v("bb_lost", "job %s (serial %s) was accepted and is not finished (rpc_qinfo), every other connection has disconnected, and a fresh "
+                       "worker pulling all channels until it blocks did not receive it (received serials %r)" % (i, ser, got))
+
     def monitor_state(self):
+        try:
+            self.monitor_state_wb()
+        except Exception as e:
+            self.unreadable.add("monitor_state:%s" % type(e).__name__)
+
+    def monitor_state_wb(self):
+        """white-box oracles on the real objects (queues, mailboxes, job objects); internals the property does not mention
+        are read through adapters (queues(), held_objs()) and replaced by the black-box book-keeping when unreadable"""
         wq = self.wq
         self.track()
+        queues = self.queues()
         for ser, j in self.tracked.items():
             if j.done:
                 fin = (j.error, j.result)
@@ -326,7 +558,7 @@ class Sim:
             if j.finish_event.is_set():
                 self.v("wait", "job serial %d is not done but its finish event is set" % ser)
             places = []
-            for k, q in wq.channel2q.items():
+            for k, q in queues.items():
                 n = sum(1 for x in q if x is j)
                 if n:
                     places.append("queue %s x%d" % (k, n))
@@ -335,7 +567,11 @@ class Sim:
                     places.extend(["dup"] * (n - 1))
             held = 0
             for st in self.live():
-                n = sum(1 for x in st["plugin"].running_jobs.values() if x is j)
+                objs = self.held_objs(st)
+                if objs is not None:
+                    n = sum(1 for x in objs if x is j)
+                else:       # running_jobs carries no job objects on this code: what the connection was handed and has not given back
+                    n = 1 if ser in self.holder.get(st["id"], ()) else 0
                 if n:
                     places.append("running of connection %d" % st["id"])
                     places.extend(["dup"] * (n - 1))
@@ -371,6 +607,7 @@ class Sim:
 
     def monitor_out(self, out, before_candidates=None, pull=None):
         self.track()
+        self.bb_out(out)
         for o in out:
             if o[0] == "deliver":
                 r = o[3]
@@ -394,10 +631,13 @@ class Sim:
 
     def candidates(self, chs):
         res = []
-        for k, q in self.wq.channel2q.items():
-            if chs and chan_n(k) not in chs:
-                continue
-            res.extend((j.priority, j.serial) for j in q if not j.done)
+        try:
+            for k, q in self.queues().items():
+                if chs and chan_n(k) not in chs:
+                    continue
+                res.extend((j.priority, j.serial) for j in q if not j.done)
+        except Exception:
+            self.unreadable.add("channel2q")
         return res
 
     # ------------------------------------------------------------ ops
@@ -415,7 +655,13 @@ class Sim:
             # accepted, unfinished jobs that carry this id (whether or not id2job still knows them)
             live_same = [j for j in self.tracked.values() if name is not None and j.jobid == name and not j.done]
             p = self.conn(0)["plugin"]
-            r = p.rpc_qadd(ch, payload=None, priority=prio, jobid=name, timeout=tmo)
+            try:
+                r = p.rpc_qadd(ch, payload=None, priority=prio, jobid=name, timeout=tmo)
+            except Exception as e:
+                self.v("rpc_error", "rpc_qadd(%r, jobid=%r) failed with %s: %s" % (ch, name, type(e).__name__, e))
+                return [["error", type(e).__name__]]
+            if r not in self.bb_ids and isinstance(r, (int, str)):
+                self.bb_ids.append(r)
             if wq.count != count0 or (name is None):
                 nj = wq.id2job.get(r)
                 if nj is not None and (old is None or nj is not old):
@@ -442,7 +688,7 @@ class Sim:
             elif live_same:
                 self.v("readd", "add under id %r created a second job although the unfinished job serial %d has that id (it is not registered in id2job any more)" % (
                     name, live_same[0].serial))
-            return [["jid", jid_s(r)]]
+            return [["jid", jid_s(r) if isinstance(r, (int, str)) and (isinstance(r, int) or len(r) == 1) else repr(r)]]
         if k == "P":
             c = int(t[1])
             chs = [] if t[2] == "-" else [int(x) for x in t[2].split(",")]
@@ -475,13 +721,20 @@ class Sim:
                                   error=None if t[4] == "-" else cm.ERR_STR.get(int(t[4]), "boom"))
                 except KeyError:
                     return [["keyerr"]]
+                except Exception as e:
+                    self.v("rpc_error", "rpc_qfinish(%s) failed with %s: %s" % (t[2], type(e).__name__, e))
+                    return [["error", type(e).__name__]]
                 return [["unit"]]
             ids = [] if t[2] == "-" else [jid_py(x) for x in t[2].split(",")]
             for x in ids:
                 j = wq.id2job.get(x)
                 if j is not None and not j.done:
                     self.kill_won.add(j.serial)
-            p.rpc_qkill(ids)
+            try:
+                p.rpc_qkill(ids)
+            except Exception as e:
+                self.v("rpc_error", "rpc_qkill(%s) failed with %s: %s" % (t[2], type(e).__name__, e))
+                return [["error", type(e).__name__]]
             return [["unit"]]
         if k == "T":
             CUR.now += int(t[1])
@@ -509,22 +762,33 @@ class Sim:
         if k == "C":
             CUR.choices.append(int(t[1]))
             return [["unit"]]
-        if k == "W":
+        if k in ("W", "WL"):
             st = self.conn(int(t[1]))
             if st["state"] != "idle":
                 return [["busy"]]
-            j = wq.id2job.get(jid_py(t[2]))
-            st["wait_serial"] = j.serial if j is not None else None
-            was_done = j is not None and j.done
+            ids = [] if t[2] == "-" else [jid_py(x) for x in t[2].split(",")]
+            # which job OBJECTS the ids name now (rpc_qinfo, a read-only request): "clients waiting for a job are released
+            # exactly when it is finished" speaks about these, whatever happens to the ids while the client waits
+            named = []
+            p0 = self.conn(0)["plugin"]
+            for i in ids:
+                try:
+                    d = p0.rpc_qinfo(i)
+                except Exception:
+                    d = None
+                named.append(rec(d)[0] if d is not None else None)
+            st["wait_all"] = named if all(s is not None for s in named) else None
+            st["wait_ev"] = None
+            all_done = st["wait_all"] is not None and all(self.is_done_bb(s) for s in named)
             self.log = []
-            st["g"].switch(("wait", jid_py(t[2])))
+            st["g"].switch(("wait", ids))
             out = self.log
             self.log = []
             if st["state"] == "busy":
                 # gevent: a wait on an already-set Event blocks until a still pending notifier of that event has
                 # run (fairness); it is released in the next loop turn, which after_loop() checks
-                if was_done:
-                    self.done_before_loop.add(j.serial)
+                if all_done:
+                    self.done_before_loop.update(named)
                 return out + [["blocked"]]
             return out
         if k == "I":
@@ -546,17 +810,20 @@ class Sim:
     def before_loop(self):
         self.log = []
         self.in_loop = True
-        self.done_before_loop = set(s for s, j in self.tracked.items() if j.done)
+        self.done_before_loop = set(s for s, j in self.tracked.items() if j.done) | set(s for s, e in self.bb.items() if e["done"])
         # for the order oracle of after_loop: what every blocked puller has been handed, and which unfinished jobs are queued
         self.loop_mail = {}
         for st in self.live():
             if st["state"] == "busy" and st["cmd"][0] == "pull" and st["ev"] is not None and st["ev"].ready() and st["ev"].successful():
                 self.loop_mail[st["id"]] = st["ev"].value.serial
         self.loop_queued = {}
-        for k, q in self.wq.channel2q.items():
-            for j in q:
-                if not j.done:
-                    self.loop_queued[j.serial] = (j.priority, chan_n(k))
+        try:
+            for k, q in self.queues().items():
+                for j in q:
+                    if not j.done:
+                        self.loop_queued[j.serial] = (j.priority, chan_n(k))
+        except Exception:
+            self.unreadable.add("channel2q")
 
     def after_loop(self):
         out = self.log
@@ -574,10 +841,13 @@ class Sim:
         # that it asked for may be smaller in (priority, serial) than what it got.
         delivered = set(o[3][0] for o in res if o[0] == "deliver")
         still = {}
-        for k, q in self.wq.channel2q.items():
-            for j in q:
-                if not j.done and j.serial in self.loop_queued and j.serial not in delivered:
-                    still[j.serial] = self.loop_queued[j.serial]
+        try:
+            for k, q in self.queues().items():
+                for j in q:
+                    if not j.done and j.serial in self.loop_queued and j.serial not in delivered:
+                        still[j.serial] = self.loop_queued[j.serial]
+        except Exception:
+            self.unreadable.add("channel2q")
         for o in res:
             if o[0] != "deliver" or o[1] not in self.loop_mail or self.loop_mail[o[1]] == o[3][0]:
                 continue
@@ -587,8 +857,9 @@ class Sim:
                 self.v("min_first", "connection %d found its handed job finished, pulled channels %r again and received (prio,serial)=%r although %r were queued" % (
                     o[1], o[2], got, better))
         for st in self.live():
-            if st["state"] == "busy" and st["cmd"][0] == "wait" and st.get("wait_serial") in self.done_before_loop:
-                self.v("wait", "connection %d still blocked in wait although job serial %d finished before the event loop ran" % (st["id"], st["wait_serial"]))
+            if st["state"] == "busy" and st["cmd"][0] == "wait" and st.get("wait_all") is not None and all(s in self.done_before_loop for s in st["wait_all"]):
+                self.v("wait", "connection %d is still blocked in its wait for %r although all the jobs it named (serials %r) were finished before the event loop ran" % (
+                    st["id"], [jid_s(x) for x in st["cmd"][1]], st["wait_all"]))
         return res
 
     def kill_all(self):
@@ -616,7 +887,9 @@ class Sim:
         new.__dict__.update(db=main2.db if main2 is not None else ref, main=main2, datadir=old.datadir,
                             conns={}, log=[], tracked={}, final={}, handed={}, requeued={}, holder={}, loop_mail={}, loop_queued={},
                             base_done={}, viol=old.viol, at=old.at, done_before_loop=set(), in_loop=False, issued=old.issued,
-                            kill_won=old.kill_won)
+                            kill_won=old.kill_won, bb=old.bb, bb_ids=old.bb_ids, unreadable=old.unreadable)
+        for e in new.bb.values():
+            e["holder"] = None       # every connection is gone
         CUR.timers = []
         new.wq = new.db.workq
         for st in old.conns.values():
@@ -669,15 +942,38 @@ def run_history(ops, prop, model, trace):
             empty_datadir()
 
 
+class MODEL:
+    exe = None
+    p = None
+
+    @classmethod
+    def start(cls):
+        cls.p = subprocess.Popen([cls.exe], stdin=subprocess.PIPE, stdout=subprocess.PIPE, text=True, bufsize=1 << 16)
+
+    @classmethod
+    def restart(cls):
+        try:
+            cls.p.kill()
+            cls.p.wait()
+        except Exception:
+            pass
+        cls.start()
+
+
+class LAST:
+    sim = None
+
+
 def _run_history(ops, prop, model, trace, datadir):
     sim = Sim(datadir)
+    LAST.sim = sim
     diff = None
     kinds = {}
     steps = []
     if model is not None:
-        model.stdin.write("N\n")
-        model.stdin.flush()
-        model.stdout.readline()
+        model.p.stdin.write("N\n")
+        model.p.stdin.flush()
+        model.p.stdout.readline()
     for k, op in enumerate(ops):
         t = op.split()
         sim.at = k
@@ -688,11 +984,13 @@ def _run_history(ops, prop, model, trace, datadir):
             out = sim.after_loop()
         elif t[0] == "R":
             sim = sim.restart()
+            LAST.sim = sim
             yield                  # let the old connections die (they only touch the old objects)
             out = [["unit"]]
         else:
             out = sim.do(t)
         sim.monitor_out(out)
+        sim.bb_probe()
         snap = sim.snap()
         sim.monitor_state()
         impl = {"out": out, "snap": snap}
@@ -700,16 +998,36 @@ def _run_history(ops, prop, model, trace, datadir):
             kinds["out:" + o[0]] = kinds.get("out:" + o[0], 0) + 1
         m = None
         if model is not None:
-            model.stdin.write(op + "\n")
-            model.stdin.flush()
-            m = json.loads(model.stdout.readline())
+            model.p.stdin.write(op + "\n")
+            model.p.stdin.flush()
+            m = json.loads(model.p.stdout.readline())
             if diff is None:
                 diff = cm.compare(prop, k, op, impl, m)
         if trace:
             steps.append({"op": op, "impl": impl, "model": m})
+    # ---- drain (black-box conservation): every connection disconnects; after the event loop has run, a fresh worker pulls
+    # everything.  Two loop turns: the second one runs wake-ups queued during the first (they find their pullers dead).
+    sim.at = len(ops)
+    drained = []
+    for turn in range(2):
+        sim.before_loop()
+        if turn == 0:
+            sim.kill_all()
+        yield
+        out = sim.after_loop()
+        sim.monitor_out(out)
+        sim.bb_probe()
+        drained.extend(out)
+    sim.monitor_state()
+    n0 = len(sim.viol)
+    sim.drain()
+    sim.monitor_state()
+    if trace:
+        steps.append({"op": "(drain: all connections disconnect; L; L; a fresh worker pulls all channels until it blocks)",
+                      "impl": {"out": drained, "snap": sim.snap()}, "model": None})
     sim.kill_all()
     yield
-    res = {"n": len(ops), "diff": diff, "viol": sim.viol, "kinds": kinds}
+    res = {"n": len(ops), "diff": diff, "viol": sim.viol, "kinds": kinds, "unreadable": sorted(sim.unreadable)}
     if trace:
         res["steps"] = steps
     return res
@@ -721,10 +1039,12 @@ def main():
     trace = "--trace" in sys.argv
     model = None
     if exe != "-":
-        model = subprocess.Popen([exe], stdin=subprocess.PIPE, stdout=subprocess.PIPE, text=True, bufsize=1 << 16)
+        MODEL.exe = exe
+        MODEL.start()
+        model = MODEL
     lines = [ln.strip() for ln in sys.stdin if ln.strip()]
     finished = gevent.event.Event()
-    state = {"i": 0, "gen": None, "err": None}
+    state = {"i": 0, "gen": None, "err": None, "nerr": 0}
     outbuf = []
 
     def tramp():
@@ -745,6 +1065,28 @@ def main():
                     outbuf.append(json.dumps(r))
                     state["gen"] = None
                     state["i"] += 1
+                except Exception:
+                    # the harness itself failed on this history (an internal it reads has an unexpected shape, ...): the history
+                    # counts as NOT CHECKED (broken obligation, fail closed), what the monitors found so far is kept, the run goes on
+                    import traceback
+                    state["nerr"] += 1
+                    tb = traceback.format_exc()
+                    sim = LAST.sim
+                    r = {"i": state["i"], "n": 0, "diff": None, "viol": list(sim.viol) if sim is not None else [], "kinds": {},
+                         "unreadable": sorted(sim.unreadable) if sim is not None else [],
+                         "harness_error": tb[-1200:] if state["nerr"] <= 3 else tb.strip().splitlines()[-1][:200]}
+                    outbuf.append(json.dumps(r))
+                    try:
+                        if sim is not None:
+                            sim.kill_all()
+                    except Exception:
+                        pass
+                    if model is not None:
+                        model.restart()
+                    state["gen"] = None
+                    state["i"] += 1
+                    hub.loop.run_callback(tramp)     # let the killed connections die before the next history starts
+                    return
         except BaseException as e:   # noqa: B036
             import traceback
             state["err"] = traceback.format_exc()
@@ -754,11 +1096,11 @@ def main():
     finished.wait()
     sys.stdout.write("\n".join(outbuf) + "\n")
     if state["err"]:
-        sys.stdout.write(json.dumps({"harness_error": state["err"], "i": state["i"]}) + "\n")
+        sys.stdout.write(json.dumps({"fatal_harness_error": state["err"], "i": state["i"]}) + "\n")
         sys.exit(2)
     if model is not None:
-        model.stdin.close()
-        model.wait()
+        model.p.stdin.close()
+        model.p.wait()
 
 
 if __name__ == "__main__":
